@@ -984,6 +984,16 @@ def sys_fixed(tier):
         steps = ([{"a": "Connect", "k": 1, "key": 1}, {"a": "Run"}] + [{"a": "Call", "c": i, "k": 1, "dl": 100000} for i in range(1, n + 1)]
                  + [{"a": "Run"}] + [{"a": "Abandon", "c": i} for i in range(1, n + 1)] + [{"a": "Run"}])
         out.append(dict(id="sysburst:abandon:%d" % n, cfg=cfg, steps=steps))
+    # shutdown at scale: j calls are answered, the other n - j are abandoned and the only handle is dropped in the same breath, so the
+    # dispatch meets responses, more queued cancellations than the runtime's per-poll budget and "every handle is gone" in one poll
+    for tr in ("mem", "json"):
+        for n in ((70, 130) if tier == "quick" else (70, 130, 300, 700)):
+            for j in (0, 1, 2, 3):
+                cfg = {"n": 0, "limit": -1, "maxInFlight": 4096, "buf": 4096, "respBuf": 100, "transport": tr}
+                steps = ([{"a": "Connect", "k": 1, "key": 1}, {"a": "Run"}] + [{"a": "Call", "c": i, "k": 1, "dl": 100000} for i in range(1, n + 1)]
+                         + [{"a": "Run"}] + [{"a": "Complete", "c": i} for i in range(1, j + 1)]
+                         + [{"a": "Abandon", "c": i} for i in range(j + 1, n + 1)] + [{"a": "DropClient", "k": 1}, {"a": "Run"}])
+                out.append(dict(id="sysburst:shutdown:%s:%d:%d" % (tr, n, j), cfg=cfg, steps=steps))
     return out
 
 
